@@ -29,6 +29,7 @@ package surgeon
 //@   returns (err)
 //@   props C20
 //@   ensures [both] err == nil ==> fwcount == old(fwcount) + 2 && calls("clearFreelistInMetaPage", 0) == old(calls("clearFreelistInMetaPage", 0)) + 2
+//@   ensures [unwritten] fwcount == old(fwcount) ==> fwpath == old(fwpath)
 //@   ensures [last] err == nil ==> fwpageid == 1 && fwfreelist == common.PgidNoFreelist && fwsumok && fwpath == path
 //@   ensures [onlypath] fwcount > old(fwcount) ==> fwpath == path
 
